@@ -6,7 +6,8 @@ from . import core
 IDENT_START = "abcxyzABZ"
 IDENT_REST = "abz019_AZ"
 HOSTILE_VALUES = [b"", b"1", b"x", b'"', b'""', b'"x', b'x"', b'a"b', b'a""b', b"new\nline", b"\x00", b" ", b"\xc3\xa9", b"\xff\xfe", b"\xf0\x9f\x90\xb6",
-                  b"a b", b"$1", b"&|^()", b";,=", b"L" * 70, b"\t\r\n", b"'", b"\\", b'\\"']
+                  b"a b", b"$1", b"&|^()", b";,=", b"L" * 70, b"\t\r\n", b"'", b"\\", b'\\"',
+                  b"100%", b"%d", b"%%", b"%s%v%n", b"%!(EXTRA", b"{}", b"\\n", b"\x7f", b"\xe2\x80\xa8"]
 WS = [b"", b" ", b"  ", b"\t", b"\n", b"\r\n", b" \t "]
 
 
@@ -17,7 +18,7 @@ def rand_ident(rng):
 def rand_value(rng):
     if rng.random() < 0.6:
         return rng.choice(HOSTILE_VALUES)
-    return bytes(rng.choice([34, 34, 32, 65, 97, 49, 0, 10, 200, 255, 36, 38]) for _ in range(rng.randrange(0, 7)))
+    return bytes(rng.choice([34, 34, 32, 65, 97, 49, 0, 10, 200, 255, 36, 38, 37, 37, 92, 39, 123]) for _ in range(rng.randrange(0, 7)))
 
 
 def rand_tree(rng, depth, ph_rate=0.25, max_arity=4, min_arity=1):
